@@ -282,7 +282,7 @@ def run_model(binp, queries, timeout=600):
 def split_by_policy(lines):
     d = {}
     for l in lines:
-        if l.startswith('@'):
+        if l.startswith('@') and ' ' in l:
             p, rest = l.split(' ', 1)
             d.setdefault(p[1:], []).append(rest)
     return d
